@@ -19,20 +19,27 @@
 EXTENDS Naturals, Sequences, FiniteSets, TLC
 
 CONSTANTS SortedIteration,    \* TRUE: set-valued steps are lowered in sorted order (as repaired)
-          CloneIsolated       \* TRUE: the preview works on a private copy of the tracked
+          CloneIsolated,      \* TRUE: the preview works on a private copy of the tracked
                               \* database state; FALSE: what it records leaks into the state
                               \* the execution is generated from
+          PreviewPerBatch     \* TRUE: the preview is generated batch by batch, like the execution
+                              \* (as repaired, bb71b75); FALSE: per task as a whole (as found)
 
 VARIABLES steps,   \* the pending upgrade: sequence of [kind, entries]
+          cut,     \* TRUE: a batch boundary (another app's evolution or a migration that has to run
+                   \* in-between) separates the first step from the rest of the task
           preview, \* statements computed by the preview run
           exec     \* statements computed by the execution run
 
-vars == <<steps, preview, exec>>
+vars == <<steps, cut, preview, exec>>
 
 Entries == {1, 2, 3}
 (* "index": CREATE INDEX unless the tracked database state already has it; the step
    records the index in the state it was generated from *)
-StepKinds == { [kind |-> "fixed", entries |-> {}], [kind |-> "index", entries |-> {}] }
+(* "merge": an operation that is merged with adjacent ones of the same generation unit into
+   one table rebuild (one statement standing for the rebuild) *)
+StepKinds == { [kind |-> "fixed", entries |-> {}], [kind |-> "index", entries |-> {}],
+               [kind |-> "merge", entries |-> {}] }
              \cup { [kind |-> "set", entries |-> S] : S \in (SUBSET Entries) \ {{}} }
 
 RECURSIVE Perms(_)
@@ -57,17 +64,27 @@ LowerAll(i, ss, tracked) ==
 (* indexes a lowering run records in the state it works on *)
 Recorded(ss) == { i \in 1..Len(ss) : ss[i].kind = "index" }
 
+(* generation in units: with a boundary after the first step the two parts are lowered
+   separately (two adjacent merge steps then give two rebuilds instead of one) *)
+MergePairs(ss) == Len(ss) = 2 /\ ss[1].kind = "merge" /\ ss[2].kind = "merge"
+LowerUnits(ss, tracked, split) ==
+    IF split /\ Len(ss) = 2
+    THEN { a \o b : a \in LowerAll(1, <<ss[1]>>, tracked), b \in LowerAll(2, <<ss[2]>>, tracked) }
+    ELSE IF MergePairs(ss) THEN { << <<1, 2>> >> }        \* one rebuild for both
+    ELSE LowerAll(1, ss, tracked)
+
 Init == /\ steps \in { <<a>> : a \in StepKinds } \cup { <<a, b>> : a \in StepKinds, b \in StepKinds }
+        /\ cut \in BOOLEAN
         \* prepare() generates the preview first, on a clone of the state; batch building then
         \* generates what is executed, on the evolver's own state
-        /\ preview \in LowerAll(1, steps, {})
-        /\ exec \in LowerAll(1, steps, IF CloneIsolated THEN {} ELSE Recorded(steps))
+        /\ preview \in LowerUnits(steps, {}, cut /\ PreviewPerBatch)
+        /\ exec \in LowerUnits(steps, IF CloneIsolated THEN {} ELSE Recorded(steps), cut)
 Next == UNCHANGED vars
 Spec == Init /\ [][Next]_vars
 
 (* C14 *)
 PreviewEqualsExecution == preview = exec
-LoweringDeterministic == Cardinality(LowerAll(1, steps, {})) = 1
+LoweringDeterministic == Cardinality(LowerUnits(steps, {}, cut)) = 1
 (* the hazard the replay looks for: a set-valued step with two or more entries *)
 HasMultiEntrySet == \E i \in 1..Len(steps) : Cardinality(steps[i].entries) >= 2
 NondeterminismOnlyFromSets == (~LoweringDeterministic) => HasMultiEntrySet
